@@ -4,7 +4,8 @@
      1. shutdown receiver polled                                   -> Exit
      2. keys snapshot; will_ping; for each key: drain recv_nonblocking until None-yet / error, dispatching each message;
         on error dispatch disconnect + remove; otherwise heartbeat timeout -> dispatch disconnect + remove; otherwise ping
-     3. take in the streams waiting in the connect channel: dispatch connect, insert (HashMap::insert replaces)
+     3. take in the streams waiting in the connect channel: a stream still in the table under the same address is stale
+        -> dispatch its disconnect and remove it; dispatch connect, insert
      4. drain the outgoing channel: unicast to the addressee if present, broadcast to every stream present
      5. sleep (not modelled)
 
@@ -133,12 +134,23 @@ Fixpoint phase2 (cfg : config) (will_ping : bool) (per : list (addr * per_addr))
     end
   end.
 
-(* admission of the streams waiting in the channel *)
+(* admission of the streams waiting in the channel; an address that is still in the table belongs to a connection whose end
+   went unnoticed: that stream is disconnected first (repair c80fbf4) *)
 Fixpoint admission (news : list (option addr * N)) (m : smap) : smap * list dispatch :=
   match news with
   | [] => (m, [])
   | (None, _) :: r => admission r m
-  | (Some a, lp) :: r => let '(m', ds) := admission r (insert a lp m) in (m', Connect a :: ds)
+  | (Some a, lp) :: r =>
+    let stale := if mem a (keys m) then [Disconnect a] else [] in
+    let '(m', ds) := admission r (insert a lp (remove a m)) in (m', stale ++ Connect a :: ds)
+  end.
+
+(* before the repair: HashMap::insert replaced the stale stream silently *)
+Fixpoint admission_old (news : list (option addr * N)) (m : smap) : smap * list dispatch :=
+  match news with
+  | [] => (m, [])
+  | (None, _) :: r => admission_old r m
+  | (Some a, lp) :: r => let '(m', ds) := admission_old r (insert a lp m) in (m', Connect a :: ds)
   end.
 
 Definition out_writes (ks : list addr) (o : out) : list write :=
@@ -173,6 +185,18 @@ Definition poll (cfg : config) (st : app_state) (inp : inputs) : result :=
     Next {| streams := m'; last_ping := lping |} (ds ++ cs) (ws ++ flush (keys m') (i_out inp))
   end.
 
+Definition poll_old (cfg : config) (st : app_state) (inp : inputs) : result :=
+  if i_shutdown inp then Exit else
+  let wp := will_ping cfg st inp in
+  let lping := if wp then i_ping_set inp else last_ping st in
+  match phase2 cfg wp (i_per inp) (i_order inp) (streams st) with
+  | P2Crash => Crash
+  | P2Stuck m ds => Blocked {| streams := m; last_ping := lping |} ds
+  | P2Go m ds ws =>
+    let '(m', cs) := admission_old (i_new inp) m in
+    Next {| streams := m'; last_ping := lping |} (ds ++ cs) (ws ++ flush (keys m') (i_out inp))
+  end.
+
 (* handlers are optional: an event whose handler is not installed is not handed to the pool *)
 Definition visible (cfg : config) (d : dispatch) : bool :=
   match d with Connect _ => has_connect cfg | Message _ _ => has_message cfg | Disconnect _ => has_disconnect cfg end.
@@ -193,6 +217,20 @@ Fixpoint run (cfg : config) (st : app_state) (hist : list inputs) : trace :=
     | Blocked st' ds => {| t_state := st'; t_status := Stuck; t_disp := ds; t_writes := [] |}
     | Next st' ds ws =>
       let t := run cfg st' rest in
+      {| t_state := t_state t; t_status := t_status t; t_disp := ds ++ t_disp t; t_writes := ws ++ t_writes t |}
+    end
+  end.
+
+Fixpoint run_old (cfg : config) (st : app_state) (hist : list inputs) : trace :=
+  match hist with
+  | [] => {| t_state := st; t_status := Running; t_disp := []; t_writes := [] |}
+  | inp :: rest =>
+    match poll_old cfg st inp with
+    | Exit => {| t_state := st; t_status := Exited; t_disp := []; t_writes := [] |}
+    | Crash => {| t_state := st; t_status := Crashed; t_disp := []; t_writes := [] |}
+    | Blocked st' ds => {| t_state := st'; t_status := Stuck; t_disp := ds; t_writes := [] |}
+    | Next st' ds ws =>
+      let t := run_old cfg st' rest in
       {| t_state := t_state t; t_status := t_status t; t_disp := ds ++ t_disp t; t_writes := ws ++ t_writes t |}
     end
   end.
@@ -264,14 +302,19 @@ Definition out_okb (ks : list addr) (o : out) : bool :=
 Fixpoint no_block (rs : list rres) : bool :=
   match rs with [] => true | RBlock :: _ => false | RMsg _ :: r => no_block r | _ :: _ => true end.
 
-(* (1) the key order is a permutation of the table's keys; (2) the admitted addresses are distinct and not in the table
-   (a TCP peer address identifies one live connection); (3) each broadcast visits exactly the streams in the table *)
+(* (1) the key order is a permutation of the table's keys; (2) each broadcast visits exactly the streams in the table.
+   Nothing is assumed about the addresses of the new streams. *)
 Definition wf_inputsb (cfg : config) (st : app_state) (inp : inputs) : bool :=
   permb (i_order inp) (keys (streams st)) &&
   match phase2 cfg (will_ping cfg st inp) (i_per inp) (i_order inp) (streams st) with
-  | P2Go m _ _ =>
-    nodupb (admitted inp) && forallb (fun a => negb (mem a (keys m))) (admitted inp) &&
-    forallb (out_okb (keys (fst (admission (i_new inp) m)))) (i_out inp)
+  | P2Go m _ _ => forallb (out_okb (keys (fst (admission (i_new inp) m)))) (i_out inp)
+  | _ => true
+  end.
+
+(* the additional assumption the code needed before the repair: admitted addresses distinct and not in the table *)
+Definition fresh_inputsb (cfg : config) (st : app_state) (inp : inputs) : bool :=
+  match phase2 cfg (will_ping cfg st inp) (i_per inp) (i_order inp) (streams st) with
+  | P2Go m _ _ => nodupb (admitted inp) && forallb (fun a => negb (mem a (keys m))) (admitted inp)
   | _ => true
   end.
 
